@@ -10,7 +10,9 @@ mod cont;
 mod p01;
 mod p02;
 mod p03;
+mod p04;
 mod p05;
+mod p06;
 mod p07;
 mod p11;
 mod p12;
@@ -36,7 +38,9 @@ macro_rules! dispatch {
             "C01" => $f::<p01::C01>($($arg),*),
             "C02" => $f::<p02::C02>($($arg),*),
             "C03" => $f::<p03::C03>($($arg),*),
+            "C04" => $f::<p04::C04>($($arg),*),
             "C05" => $f::<p05::C05>($($arg),*),
+            "C06" => $f::<p06::C06>($($arg),*),
             "C07" => $f::<p07::C07>($($arg),*),
             "C11" => $f::<p11::C11>($($arg),*),
             "C12" => $f::<p12::C12>($($arg),*),
